@@ -1,2 +1,250 @@
-(* Property C02 (placeholder while the model/harness are brought up; theorems follow). *)
-From Coq Require Import List.
+(* Property C02 — the scanner yields exactly the positions scoring at or above the
+   threshold.  Only the property theorems (closed by lemmas of ScanProofs), statement
+   pins and non-vacuity examples.
+
+   The theorems are about the model of Scanner::next / Iterator::take / iteration to
+   exhaustion in ScanModel.v (scan.rs as repaired), for EVERY instance of the things the
+   scanner calls:
+     T, geb            score type and the comparison `score >= threshold`
+     is_nan            the assertion of Hit::new
+     scale             DiscreteMatrix::scale
+     score_position i  ScoringMatrix::score_position (may panic)
+     score_rows a e    the u8 score matrix of the striped rows a..e (may panic)
+     R, Lm, B, thr     sequence rows, number of valid positions (L+1-M, saturating),
+                       block size, threshold
+   C02_scan_sound needs nothing but "score_rows a e returns at most e-a rows";
+   C02_scan_complete states the layout of the u8 block scores (cell (r, c) of the block
+   starting at row a holds the byte score of position c*R + a + r; no rows at all when
+   there is no valid position) and the conservativeness of the 8-bit pre-filter
+   (property C08) as hypotheses.  The binary32 instance used for the replay
+   (ScanConcrete.v) is the same text; ConcreteProofs.v discharges the shape hypothesis
+   for it. *)
+From Coq Require Import List Arith Bool Lia Permutation.
+From LMBase Require Import Res ListX.
+From LMScan Require Import ScanModel ScanLemmas ScanProofs.
+Import ListNotations.
+
+(* (1) Soundness, unconditional (any block size incl. 0, any wrap, any matrix; whatever
+   the 8-bit pre-filter does): every hit yielded by iterating until None is a valid
+   position 0 <= i < L-M+1, carries exactly the score score_position computes for it,
+   that score is >= threshold, and no position is yielded twice. *)
+Theorem C02_scan_sound :
+  forall (T : Type) (geb : T -> T -> bool) (is_nan : T -> bool) (scale : T -> nat)
+         (score_position : nat -> res T) (score_rows : nat -> nat -> res dmatrix)
+         (R Lm B : nat) (thr : T),
+    (forall a e m, a <= e -> e <= R -> score_rows a e = Ok m -> length m <= e - a) ->
+    forall (fuel : nat) (H : list (nat * T)),
+      collect geb is_nan scale score_position score_rows R Lm B thr fuel init = Ok H ->
+      Forall (fun h => fst h < Lm /\ score_position (fst h) = Ok (snd h) /\ geb (snd h) thr = true) H
+      /\ NoDup (map fst H).
+Proof.
+  intros T geb is_nan scale score_position score_rows R Lm B thr Hlen fuel H Hc.
+  exact (scan_sound_run geb is_nan scale score_position score_rows R Lm B thr Hlen fuel H Hc).
+Qed.
+
+(* the same for any prefix obtained with take(k) (k calls of next()) *)
+Theorem C02_take_sound :
+  forall (T : Type) (geb : T -> T -> bool) (is_nan : T -> bool) (scale : T -> nat)
+         (score_position : nat -> res T) (score_rows : nat -> nat -> res dmatrix)
+         (R Lm B : nat) (thr : T),
+    (forall a e m, a <= e -> e <= R -> score_rows a e = Ok m -> length m <= e - a) ->
+    forall (k : nat) (H : list (nat * T)) (s' : st),
+      take_k geb is_nan scale score_position score_rows R Lm B thr k init = Ok (H, s') ->
+      Forall (fun h => fst h < Lm /\ score_position (fst h) = Ok (snd h) /\ geb (snd h) thr = true) H
+      /\ NoDup (map fst H).
+Proof.
+  intros T geb is_nan scale score_position score_rows R Lm B thr Hlen k H s' Ht.
+  exact (take_sound_run geb is_nan scale score_position score_rows R Lm B thr Hlen k H s' Ht).
+Qed.
+
+(* (2) Completeness and absence of panics / non-termination.  For every block size
+   B >= 1, every R, C, Lm <= R*C (this includes Lm = 0, i.e. L < M and L = 0, R = 0, R a
+   multiple of B or not) and every threshold: iteration to exhaustion returns (no Panic,
+   no OutOfFuel, within Lm+1 calls of next()) a list H in which position i occurs with
+   score x exactly when i < Lm, score i >= thr and x = score i; no position occurs twice;
+   H is a permutation of the qualifying positions listed in increasing order. *)
+Theorem C02_scan_complete :
+  forall (T : Type) (geb : T -> T -> bool) (is_nan : T -> bool) (scale : T -> nat)
+         (score_position : nat -> res T) (score_rows : nat -> nat -> res dmatrix)
+         (R Lm B : nat) (thr : T) (C : nat) (score : nat -> T) (dscore : nat -> nat),
+    1 <= B ->
+    Lm <= R * C ->
+    (forall i, i < Lm -> score_position i = Ok (score i)) ->
+    (forall a e, a <= e -> e <= R -> score_rows a e = Ok (block_spec R Lm C dscore a e)) ->
+    (forall i, i < Lm -> geb (score i) thr = true -> is_nan (score i) = false) ->
+    (* conservative pre-filter (C08) at the scanner's threshold *)
+    (forall i, i < Lm -> geb (score i) thr = true -> scale thr <= dscore i) ->
+    forall fuel, Lm < fuel ->
+    exists H : list (nat * T),
+      collect geb is_nan scale score_position score_rows R Lm B thr fuel init = Ok H /\
+      (forall i x, In (i, x) H <-> i < Lm /\ geb (score i) thr = true /\ x = score i) /\
+      NoDup (map fst H) /\
+      Permutation H (omap (fun i => if geb (score i) thr then Some (i, score i) else None) (seq 0 Lm)).
+Proof.
+  intros T geb is_nan scale score_position score_rows R Lm B thr C score dscore
+         HB HLm Hpos Hrows Hnan Hcons fuel Hf.
+  assert (Hlen : forall a e m, a <= e -> e <= R -> score_rows a e = Ok m -> length m <= e - a).
+  { intros a e m Ha He E. rewrite (Hrows a e Ha He) in E. inversion E; subst. apply block_spec_length. }
+  destruct (scan_complete_run geb is_nan scale score_position score_rows R Lm B thr Hlen
+              C score dscore HB HLm Hpos Hrows Hnan Hcons fuel Hf) as (H & Hc & Hp).
+  exists H. split; [exact Hc|]. split; [|split; [|exact Hp]].
+  - intros i x. split.
+    + intros Hin. apply (Permutation_in _ Hp) in Hin.
+      apply in_expected in Hin. unfold qualifies in Hin. simpl in Hin. tauto.
+    + intros (Hi & Hg & ->). apply (Permutation_in _ (Permutation_sym Hp)).
+      apply in_expected. unfold qualifies. simpl. tauto.
+  - apply (Permutation_NoDup (Permutation_map fst (Permutation_sym Hp))).
+    apply NoDup_expected.
+Qed.
+
+(* single calls never panic either, from any scanner state (so any interleaving of
+   next() calls with the hit buffer is covered), and neither does take(k) *)
+Theorem C02_next_total :
+  forall (T : Type) (geb : T -> T -> bool) (is_nan : T -> bool) (scale : T -> nat)
+         (score_position : nat -> res T) (score_rows : nat -> nat -> res dmatrix)
+         (R Lm B : nat) (thr : T) (C : nat) (score : nat -> T) (dscore : nat -> nat),
+    1 <= B ->
+    Lm <= R * C ->
+    (forall i, i < Lm -> score_position i = Ok (score i)) ->
+    (forall a e, a <= e -> e <= R -> score_rows a e = Ok (block_spec R Lm C dscore a e)) ->
+    (forall i, i < Lm -> geb (score i) thr = true -> is_nan (score i) = false) ->
+    (forall s : st, exists r s',
+        next geb is_nan scale score_position score_rows R Lm B thr s = Ok (r, s')) /\
+    (forall k (s : st), exists H s',
+        take_k geb is_nan scale score_position score_rows R Lm B thr k s = Ok (H, s')).
+Proof.
+  intros T geb is_nan scale score_position score_rows R Lm B thr C score dscore HB HLm Hpos Hrows Hnan.
+  split.
+  - exact (next_total geb is_nan scale score_position score_rows R Lm B thr C score dscore HB HLm Hpos Hrows Hnan).
+  - exact (take_k_total geb is_nan scale score_position score_rows R Lm B thr C score dscore HB HLm Hpos Hrows Hnan).
+Qed.
+
+(* (3) take(k) returns the first k hits of the full iteration (all of them when fewer
+   than k qualify): k distinct qualifying positions with their exact scores *)
+Theorem C02_take_prefix :
+  forall (T : Type) (geb : T -> T -> bool) (is_nan : T -> bool) (scale : T -> nat)
+         (score_position : nat -> res T) (score_rows : nat -> nat -> res dmatrix)
+         (R Lm B : nat) (thr : T) (C : nat) (score : nat -> T) (dscore : nat -> nat),
+    1 <= B ->
+    Lm <= R * C ->
+    (forall i, i < Lm -> score_position i = Ok (score i)) ->
+    (forall a e, a <= e -> e <= R -> score_rows a e = Ok (block_spec R Lm C dscore a e)) ->
+    (forall i, i < Lm -> geb (score i) thr = true -> is_nan (score i) = false) ->
+    (forall i, i < Lm -> geb (score i) thr = true -> scale thr <= dscore i) ->
+    forall fuel k, Lm < fuel ->
+    exists (H : list (nat * T)) (s' : st),
+      collect geb is_nan scale score_position score_rows R Lm B thr fuel init = Ok H /\
+      take_k geb is_nan scale score_position score_rows R Lm B thr k init = Ok (firstn k H, s').
+Proof.
+  intros T geb is_nan scale score_position score_rows R Lm B thr C score dscore
+         HB HLm Hpos Hrows Hnan Hcons fuel k Hf.
+  assert (Hlen : forall a e m, a <= e -> e <= R -> score_rows a e = Ok m -> length m <= e - a).
+  { intros a e m Ha He E. rewrite (Hrows a e Ha He) in E. inversion E; subst. apply block_spec_length. }
+  exact (scan_take_run geb is_nan scale score_position score_rows R Lm B thr Hlen
+           C score dscore HB HLm Hpos Hrows Hnan Hcons fuel k Hf).
+Qed.
+
+(* (4) Blocks and coordinates.  The row ranges [a, min(a+B, R)) scored by the `while`
+   loop (a = 0, B, 2B, .. < R), concatenated in order, are exactly the rows 0..R-1: they
+   partition the sequence rows, whatever R is relative to a multiple of B; and
+   (r, c) |-> c*R + r is a bijection from [0,R) x [0,C) onto [0, R*C). *)
+Theorem C02_scan_blocks_partition :
+  forall B R C, 1 <= B ->
+    flat_map (block_rows B R) (block_starts (S R) B R 0) = seq 0 R /\
+    (forall a, In a (block_starts (S R) B R 0) -> a < R /\ exists k, a = k * B) /\
+    (forall r c, r < R -> c < C ->
+       c * R + r < R * C /\ (c * R + r) / R = c /\ (c * R + r) mod R = r) /\
+    (forall i, i < R * C -> i / R < C /\ i mod R < R /\ i = (i / R) * R + i mod R).
+Proof.
+  intros B R C HB. repeat split.
+  - rewrite (block_starts_cover B R HB (S R) 0) by lia. now rewrite Nat.sub_0_r.
+  - apply (block_starts_multiple B R (S R) 0 a H).
+  - apply (block_starts_multiple B R (S R) 0 a H).
+  - now apply idx_lt.
+  - now apply idx_div.
+  - now apply idx_mod.
+  - now apply idx_col_lt.
+  - apply idx_row_lt. destruct R; simpl in *; lia.
+  - apply idx_decomp. destruct R; simpl in *; lia.
+Qed.
+
+Check C02_scan_sound :
+  forall (T : Type) (geb : T -> T -> bool) (is_nan : T -> bool) (scale : T -> nat)
+         (score_position : nat -> res T) (score_rows : nat -> nat -> res dmatrix)
+         (R Lm B : nat) (thr : T),
+    (forall a e m, a <= e -> e <= R -> score_rows a e = Ok m -> length m <= e - a) ->
+    forall (fuel : nat) (H : list (nat * T)),
+      collect geb is_nan scale score_position score_rows R Lm B thr fuel init = Ok H ->
+      Forall (fun h => fst h < Lm /\ score_position (fst h) = Ok (snd h) /\ geb (snd h) thr = true) H
+      /\ NoDup (map fst H).
+
+Check C02_scan_complete :
+  forall (T : Type) (geb : T -> T -> bool) (is_nan : T -> bool) (scale : T -> nat)
+         (score_position : nat -> res T) (score_rows : nat -> nat -> res dmatrix)
+         (R Lm B : nat) (thr : T) (C : nat) (score : nat -> T) (dscore : nat -> nat),
+    1 <= B ->
+    Lm <= R * C ->
+    (forall i, i < Lm -> score_position i = Ok (score i)) ->
+    (forall a e, a <= e -> e <= R -> score_rows a e = Ok (block_spec R Lm C dscore a e)) ->
+    (forall i, i < Lm -> geb (score i) thr = true -> is_nan (score i) = false) ->
+    (forall i, i < Lm -> geb (score i) thr = true -> scale thr <= dscore i) ->
+    forall fuel, Lm < fuel ->
+    exists H : list (nat * T),
+      collect geb is_nan scale score_position score_rows R Lm B thr fuel init = Ok H /\
+      (forall i x, In (i, x) H <-> i < Lm /\ geb (score i) thr = true /\ x = score i) /\
+      NoDup (map fst H) /\
+      Permutation H (omap (fun i => if geb (score i) thr then Some (i, score i) else None) (seq 0 Lm)).
+
+(* ---------- non-vacuity ---------- *)
+
+(* A toy instance with natural-number scores: R = 4 rows, C = 3 columns, 10 valid
+   positions (cells 10, 11 are padding), byte score = ceil(score / 2), scale = floor(t / 2)
+   (a conservative but lossy pre-filter: position 4 passes it and fails the real test). *)
+Module Toy.
+  Definition table : list nat := [5; 9; 2; 7; 6; 9; 1; 8; 3; 7].
+  Definition score (i : nat) : nat := nth i table 0.
+  Definition dscore (i : nat) : nat := (score i + 1) / 2.
+  Definition geb (a b : nat) : bool := b <=? a.
+  Definition is_nan (_ : nat) : bool := false.
+  Definition scale (t : nat) : nat := t / 2.
+  Definition Lm := 10.
+  Definition score_position (i : nat) : res nat := if i <? Lm then Ok (score i) else Panic 21.
+  Definition score_rows (R : nat) (a e : nat) : res dmatrix := Ok (block_spec R Lm 3 dscore a e).
+  Definition run (R B thr : nat) : res (list (nat * nat)) :=
+    collect geb is_nan scale score_position (score_rows R) R Lm B thr 11 init.
+End Toy.
+
+Example C02_nonvacuous_hyps :
+  forall B, 1 <= B ->
+    1 <= B /\ Toy.Lm <= 4 * 3 /\
+    (forall i, i < Toy.Lm -> Toy.score_position i = Ok (Toy.score i)) /\
+    (forall a e, a <= e -> e <= 4 -> Toy.score_rows 4 a e = Ok (block_spec 4 Toy.Lm 3 Toy.dscore a e)) /\
+    (forall i, i < Toy.Lm -> Toy.geb (Toy.score i) 7 = true -> Toy.is_nan (Toy.score i) = false) /\
+    (forall i, i < Toy.Lm -> Toy.geb (Toy.score i) 7 = true -> Toy.scale 7 <= Toy.dscore i).
+Proof.
+  intros B HB. repeat split; auto.
+  - unfold Toy.Lm. lia.
+  - intros i Hi. unfold Toy.score_position. apply Nat.ltb_lt in Hi. now rewrite Hi.
+  - intros i Hi. unfold Toy.Lm in Hi.
+    do 10 (destruct i as [|i]; [vm_compute; intros; try discriminate; lia|]). lia.
+Qed.
+
+(* what the model yields on it: block sizes 1, 2 (R a multiple of B), 3, 4, 256 give the
+   same set {1, 3, 5, 7, 9} in block-dependent (LIFO per block) order; thresholds below the minimum give
+   all 10 positions and never the padding cells; thresholds above the maximum none *)
+Example C02_nonvacuous_runs :
+  Toy.run 4 1 7 = Ok [(9, 7); (5, 9); (1, 9); (7, 8); (3, 7)] /\
+  Toy.run 4 2 7 = Ok [(9, 7); (5, 9); (1, 9); (7, 8); (3, 7)] /\
+  Toy.run 4 3 7 = Ok [(9, 7); (5, 9); (1, 9); (7, 8); (3, 7)] /\
+  Toy.run 4 256 7 = Ok [(7, 8); (3, 7); (9, 7); (5, 9); (1, 9)] /\
+  Toy.run 4 3 0 = Ok [(6, 1); (2, 2); (9, 7); (5, 9); (1, 9); (8, 3); (4, 6); (0, 5); (7, 8); (3, 7)] /\
+  Toy.run 4 2 10 = Ok [].
+Proof. vm_compute. repeat split; reflexivity. Qed.
+
+(* L < M (no valid position) and L = 0 (no row): nothing is yielded, nothing panics *)
+Example C02_nonvacuous_short :
+  collect Toy.geb Toy.is_nan Toy.scale (fun _ => Panic 20) (fun a e => Ok (block_spec 1 0 3 Toy.dscore a e))
+          1 0 2 0 1 init = Ok [] /\
+  collect Toy.geb Toy.is_nan Toy.scale (fun _ => Panic 20) (fun a e => Ok (block_spec 0 0 3 Toy.dscore a e))
+          0 0 2 0 1 init = Ok [].
+Proof. vm_compute. split; reflexivity. Qed.
